@@ -5,7 +5,9 @@ import (
 	"crypto"
 	"crypto/rand"
 	"crypto/rsa"
+	_ "crypto/sha1"
 	"crypto/sha256"
+	_ "crypto/sha512"
 	"crypto/x509"
 	"encoding/asn1"
 	"encoding/pem"
@@ -156,6 +158,162 @@ func cmsShapedSeeds(c *Ctx) []p7Seed {
 			}
 		}
 	}
+	return seeds
+}
+
+// ---- producer configurations that change the ORDER and the NUMBER of what a signer entry / a SignedData holds ----
+
+// oidOfDERLength: an object identifier under 1.3.6.1.4.1.311.21.8 whose DER contents octets are exactly n long (n >= 9)
+func oidOfDERLength(n int) asn1.ObjectIdentifier {
+	o := asn1.ObjectIdentifier{1, 3, 6, 1, 4, 1, 311, 21, 8}
+	for i := 9; i < n; i++ {
+		o = append(o, 1+i%100)
+	}
+	return o
+}
+
+// cmsExtraAttrs: additional signed attributes by where their DER encoding sorts among contentType, signingTime and
+// messageDigest (X.690 11.6: the elements of a SET OF are ordered by their encodings, so a shorter attribute comes
+// first and equally long ones are ordered by their first differing octet): shorter than every well-known attribute;
+// longer than signingTime and shorter than messageDigest; exactly as long as messageDigest with an attribute type
+// that sorts in front of it / behind it; two values in one attribute; longer than everything.
+func cmsExtraAttrs() []struct {
+	name  string
+	attrs [][]byte
+} {
+	attr := func(oid asn1.ObjectIdentifier, values ...[]byte) []byte {
+		sort.Slice(values, func(i, j int) bool { return bytes.Compare(values[i], values[j]) < 0 })
+		return tlv(0x30, append(mustMarshal(oid, ""), tlv(0x31, bytes.Join(values, nil))...))
+	}
+	octets := func(n int, fill byte) []byte { return tlv(0x04, bytes.Repeat([]byte{fill}, n)) }
+	pkcs9 := func(n int) asn1.ObjectIdentifier { return asn1.ObjectIdentifier{1, 2, 840, 113549, 1, 9, n} }
+	tiny := attr(asn1.ObjectIdentifier{2, 999, 3}, mustMarshal(5, ""))
+	mid := attr(asn1.ObjectIdentifier{1, 2, 840, 113549, 1, 9, 16, 2, 4}, octets(16, 0x5a))
+	type ea = struct {
+		name  string
+		attrs [][]byte
+	}
+	return []ea{
+		{"shorter-than-content-type", [][]byte{tiny}},
+		{"between-signing-time-and-message-digest", [][]byte{mid}},
+		{"as-long-as-message-digest/type-sorts-in-front", [][]byte{attr(pkcs9(2), octets(32, 0x11))}},
+		{"as-long-as-message-digest/type-sorts-behind", [][]byte{attr(pkcs9(52), octets(32, 0xee))}},
+		{"two-values", [][]byte{attr(asn1.ObjectIdentifier{2, 999, 7}, mustMarshal(7, ""), mustMarshal(300, ""))}},
+		{"short-and-medium-and-long", [][]byte{tiny, mid, attr(asn1.ObjectIdentifier{2, 999, 9}, octets(200, 0x33))}},
+	}
+}
+
+// cmsVariantSeeds: harness-built signatures in OpenSSL's shape under the producer configurations of the quantifier
+// that move things around: (a) an encapsulated content type other than data - object identifiers of 3, 10, 12 ... 24
+// and 38 DER octets (openssl cms -econtent_type): the signed contentType attribute grows with it and changes its
+// place in the DER-sorted attribute SET (13 octets: as long as signingTime, from 14 on behind it); (b) additional
+// signed attributes of every size class of cmsExtraAttrs; (c) SEVERAL signers of one content, each with the digest
+// algorithm of its choice (CMS_add1_signer / openssl cms -resign -md ...): a SHA-1, SHA-384 or SHA-512 co-signer in
+// front of or behind the SHA-256 signer, content attached and detached. The property asks of each: parses; verifies
+// against the certificate of the signer that used SHA-256 and signed attributes; is rejected for any other
+// certificate; the re-encoding of every entry's parsed attributes reproduces the signed bytes. For the co-signer's
+// own certificate (an entry that carries no RSA-SHA256 signature) only parsing is asked here; C04's oracle judges it.
+func cmsVariantSeeds(c *Ctx) []p7Seed {
+	k0, k1, k3 := poolKey(c, 2048, 0), poolKey(c, 2048, 1), poolKey(c, 2048, 3)
+	sh := certShapes(c)
+	right, twin, other := makeRSACert(k0, sh[2]), makeRSACert(k1, sh[2]), makeRSACert(k1, sh[0])
+	content := []byte("harness-built CMS content")
+	var seeds []p7Seed
+	add := func(name string, o cmsOpts) {
+		o.content = content
+		if b := buildCMSGen(k0, right, o); b != nil {
+			seeds = append(seeds, p7Seed{name, b, right, twin, other, true})
+		}
+	}
+	for i, o := range []asn1.ObjectIdentifier{{2, 999, 1}, {1, 3, 6, 1, 4, 1, 311, 2, 1, 4}, oidOfDERLength(12), oidOfDERLength(13), oidOfDERLength(14), oidOfDERLength(15), oidOfDERLength(24), oidOfDERLength(38)} {
+		n := len(mustMarshal(o, "")) - 2
+		add(fmt.Sprintf("cms-shaped/econtent-type-of-%d-octets/attached=%v", n, i%2 == 0), cmsOpts{attached: i%2 == 0, smimecap: i%3 == 0, withCerts: true, eContentType: o})
+		if c.Thorough {
+			add(fmt.Sprintf("cms-shaped/econtent-type-of-%d-octets/attached=%v", n, i%2 != 0), cmsOpts{attached: i%2 != 0, smimecap: i%3 != 0, withCerts: false, eContentType: o})
+		}
+	}
+	for i, x := range cmsExtraAttrs() {
+		add("cms-shaped/extra-signed-attribute/"+x.name, cmsOpts{attached: i%2 == 1, smimecap: i%3 == 2, withCerts: i%4 != 3, extraAttrs: x.attrs})
+		if c.Thorough {
+			add("cms-shaped/extra-signed-attribute/"+x.name+"/econtent-type-of-14-octets", cmsOpts{attached: i%2 == 0, withCerts: true, extraAttrs: x.attrs, eContentType: oidOfDERLength(14)})
+		}
+	}
+	// several signers
+	coCert := makeRSACert(k3, sh[9])
+	coTwin := makeRSACert(k1, sh[9])
+	for i, h := range []crypto.Hash{crypto.SHA512, crypto.SHA1, crypto.SHA384, crypto.SHA256} {
+		for _, attached := range []bool{true, false} {
+			for _, coFirst := range []bool{false, true} {
+				if !c.Thorough && !attached && coFirst != (i%2 == 0) {
+					continue
+				}
+				o := cmsOpts{content: content, attached: attached, smimecap: i%2 == 0, withCerts: true, coSigners: []cmsSigner{{k3, coCert, h}}, coFirst: coFirst}
+				b := buildCMSGen(k0, right, o)
+				if b == nil {
+					continue
+				}
+				name := fmt.Sprintf("cms-shaped/two-signers/sha256+%s-co-signer/attached=%v/co-signer-first=%v", cmsHashNames[h], attached, coFirst)
+				seeds = append(seeds, p7Seed{name, b, right, twin, other, true})
+				// the same blob asked under the co-signer's certificate
+				seeds = append(seeds, p7Seed{name + "/under-the-co-signer's-certificate", b, coCert, coTwin, other, h == crypto.SHA256})
+			}
+		}
+	}
+	// three signers: SHA-512, SHA-256 (the one asked for), SHA-1
+	if b := buildCMSGen(k3, coCert, cmsOpts{content: content, attached: true, withCerts: false, hash: crypto.SHA512,
+		coSigners: []cmsSigner{{k0, right, crypto.SHA256}, {k1, other, crypto.SHA1}}}); b != nil {
+		seeds = append(seeds, p7Seed{"cms-shaped/three-signers/sha512+sha256+sha1", b, right, twin, makeRSACert(k1, sh[3]), true})
+	}
+	return seeds
+}
+
+// opensslVariantSeeds: the OpenSSL CLI (when it exists) signing under encapsulated content types other than data
+// (cms -econtent_type with object identifiers of 10, 13, 14 and 24 DER octets, detached and -nodetach, with and
+// without S/MIME capabilities): OpenSSL orders the signed attributes by their DER encodings, so the contentType
+// attribute moves behind signingTime once the identifier has 14 octets
+func opensslVariantSeeds(c *Ctx) []p7Seed {
+	ossl := opensslPath()
+	if ossl == "" {
+		return nil
+	}
+	dir, err := os.MkdirTemp("", "vcheck-ossl-variant")
+	if err != nil {
+		return nil
+	}
+	defer os.RemoveAll(dir)
+	k0, k1 := poolKey(c, 2048, 0), poolKey(c, 2048, 1)
+	sh := certShapes(c)[1]
+	right, twin, other := makeRSACert(k0, sh), makeRSACert(k1, sh), makeRSACert(k1, certShapes(c)[0])
+	os.WriteFile(filepath.Join(dir, "content.bin"), []byte("content signed by openssl\n"), 0o644)
+	os.WriteFile(filepath.Join(dir, "key.pem"), pem.EncodeToMemory(&pem.Block{Type: "RSA PRIVATE KEY", Bytes: x509.MarshalPKCS1PrivateKey(k0)}), 0o600)
+	os.WriteFile(filepath.Join(dir, "cert.pem"), pem.EncodeToMemory(&pem.Block{Type: "CERTIFICATE", Bytes: right.Raw}), 0o644)
+	var seeds []p7Seed
+	ran := []string{}
+	for i, o := range []asn1.ObjectIdentifier{{1, 3, 6, 1, 4, 1, 311, 2, 1, 4}, oidOfDERLength(13), oidOfDERLength(14), oidOfDERLength(24)} {
+		cfgs := [][]string{{"-nodetach"}, {}, {"-nosmimecap"}, {"-nodetach", "-nosmimecap"}}
+		if !c.Thorough {
+			cfgs = [][]string{cfgs[i%4], cfgs[(i+2)%4]}
+		}
+		for _, cfg := range cfgs {
+			out := filepath.Join(dir, "out.der")
+			os.Remove(out)
+			args := append([]string{"cms", "-sign", "-binary", "-md", "sha256", "-signer", filepath.Join(dir, "cert.pem"), "-inkey", filepath.Join(dir, "key.pem"),
+				"-in", filepath.Join(dir, "content.bin"), "-outform", "DER", "-out", out, "-econtent_type", o.String()}, cfg...)
+			cmd := exec.Command(ossl, args...)
+			cmd.Env = append(os.Environ(), "OPENSSL_CONF=/dev/null")
+			if err := cmd.Run(); err != nil {
+				continue
+			}
+			b, err := os.ReadFile(out)
+			if err != nil || len(b) == 0 {
+				continue
+			}
+			name := fmt.Sprintf("openssl/cms -econtent_type <%d octets> %v", len(mustMarshal(o, ""))-2, cfg)
+			ran = append(ran, name)
+			seeds = append(seeds, p7Seed{name, b, right, twin, other, true})
+		}
+	}
+	c.Note("openssl content types", ran)
 	return seeds
 }
 
@@ -339,38 +497,60 @@ func buildCMSAt(key *rsa.PrivateKey, cert *x509.Certificate, content []byte, att
 
 // buildCMSOpt: noAttrs leaves the signed attributes out; the signature is then over the content octets (RFC 2315 section 9.3)
 func buildCMSOpt(key *rsa.PrivateKey, cert *x509.Certificate, content []byte, attached, smimecap, withCerts bool, signingTime time.Time, noAttrs bool) []byte {
+	return buildCMSGen(key, cert, cmsOpts{content: content, attached: attached, smimecap: smimecap, withCerts: withCerts, signingTime: signingTime, noAttrs: noAttrs})
+}
+
+// cmsSigner: a further signer of the same content, with the digest algorithm it uses for its message digest
+// and its signature (0: SHA-256)
+type cmsSigner struct {
+	key  *rsa.PrivateKey
+	cert *x509.Certificate
+	hash crypto.Hash
+}
+
+type cmsOpts struct {
+	content                       []byte
+	attached, smimecap, withCerts bool
+	signingTime                   time.Time
+	noAttrs                       bool
+	eContentType                  asn1.ObjectIdentifier // nil: id-data
+	extraAttrs                    [][]byte              // further signed attributes, each one complete DER Attribute
+	hash                          crypto.Hash           // the digest algorithm of the first signer (0: SHA-256)
+	coSigners                     []cmsSigner           // further signer entries over the same content
+	coFirst                       bool                  // the further entries stand in front of the first signer's
+}
+
+var cmsHashOIDs = map[crypto.Hash]asn1.ObjectIdentifier{
+	crypto.SHA1:   {1, 3, 14, 3, 2, 26},
+	crypto.SHA256: {2, 16, 840, 1, 101, 3, 4, 2, 1},
+	crypto.SHA384: {2, 16, 840, 1, 101, 3, 4, 2, 2},
+	crypto.SHA512: {2, 16, 840, 1, 101, 3, 4, 2, 3},
+}
+
+var cmsHashNames = map[crypto.Hash]string{crypto.SHA1: "sha1", crypto.SHA256: "sha256", crypto.SHA384: "sha384", crypto.SHA512: "sha512"}
+
+func hashOf(h crypto.Hash, b []byte) []byte {
+	w := h.New()
+	w.Write(b)
+	return w.Sum(nil)
+}
+
+// buildCMSGen: a CMS SignedData in OpenSSL's shape. Every signer entry carries the signed attributes contentType
+// (= the encapsulated content type), signingTime and messageDigest (under the signer's own digest algorithm) plus
+// the optional ones, as a DER-sorted SET OF, and an RSA PKCS#1 v1.5 signature under that digest algorithm over it.
+func buildCMSGen(key *rsa.PrivateKey, cert *x509.Certificate, o cmsOpts) []byte {
 	oidData := asn1.ObjectIdentifier{1, 2, 840, 113549, 1, 7, 1}
 	oidSD := asn1.ObjectIdentifier{1, 2, 840, 113549, 1, 7, 2}
-	oidSHA := asn1.ObjectIdentifier{2, 16, 840, 1, 101, 3, 4, 2, 1}
 	oidRSA := asn1.ObjectIdentifier{1, 2, 840, 113549, 1, 1, 1}
-	md := sha256.Sum256(content)
+	ect := o.eContentType
+	if ect == nil {
+		ect = oidData
+	}
+	if o.signingTime.IsZero() {
+		o.signingTime = time.Now()
+	}
 	set := func(inner []byte) asn1.RawValue {
 		return asn1.RawValue{FullBytes: append(append([]byte{0x31}, derLen(len(inner))...), inner...)}
-	}
-	attrs := [][]byte{
-		mustMarshal(cmsAttr{asn1.ObjectIdentifier{1, 2, 840, 113549, 1, 9, 3}, set(mustMarshal(oidData, ""))}, ""),
-		mustMarshal(cmsAttr{asn1.ObjectIdentifier{1, 2, 840, 113549, 1, 9, 5}, set(mustMarshal(signingTime.UTC().Truncate(time.Second), "utc"))}, ""),
-		mustMarshal(cmsAttr{asn1.ObjectIdentifier{1, 2, 840, 113549, 1, 9, 4}, set(mustMarshal(md[:], ""))}, ""),
-	}
-	if smimecap {
-		// S/MIME capabilities: SEQUENCE OF SEQUENCE { OID } (aes256-cbc, aes128-cbc), long enough to sort last
-		caps := mustMarshal([]struct{ O asn1.ObjectIdentifier }{{asn1.ObjectIdentifier{2, 16, 840, 1, 101, 3, 4, 1, 42}}, {asn1.ObjectIdentifier{2, 16, 840, 1, 101, 3, 4, 1, 2}},
-			{asn1.ObjectIdentifier{1, 2, 840, 113549, 3, 7}}, {asn1.ObjectIdentifier{2, 16, 840, 1, 101, 3, 4, 1, 22}}}, "")
-		attrs = append(attrs, mustMarshal(cmsAttr{asn1.ObjectIdentifier{1, 2, 840, 113549, 1, 9, 15}, set(caps)}, ""))
-	}
-	sort.Slice(attrs, func(i, j int) bool { return bytes.Compare(attrs[i], attrs[j]) < 0 }) // DER SET OF ordering
-	var body []byte
-	for _, a := range attrs {
-		body = append(body, a...)
-	}
-	signed := append(append([]byte{0x31}, derLen(len(body))...), body...)
-	h := sha256.Sum256(signed)
-	if noAttrs {
-		h = md
-	}
-	sig, err := rsa.SignPKCS1v15(rand.Reader, key, crypto.SHA256, h[:])
-	if err != nil {
-		return nil
 	}
 	alg := func(o asn1.ObjectIdentifier) []byte {
 		return mustMarshal(struct {
@@ -388,19 +568,83 @@ func buildCMSOpt(key *rsa.PrivateKey, cert *x509.Certificate, content []byte, at
 	tagged := func(tag byte, inner []byte) []byte {
 		return append(append([]byte{tag}, derLen(len(inner))...), inner...)
 	}
-	si := seq(mustMarshal(1, ""), seq(cert.RawIssuer, mustMarshal(cert.SerialNumber, "")), alg(oidSHA), tagged(0xa0, body), alg(oidRSA), mustMarshal(sig, ""))
-	if noAttrs {
-		si = seq(mustMarshal(1, ""), seq(cert.RawIssuer, mustMarshal(cert.SerialNumber, "")), alg(oidSHA), alg(oidRSA), mustMarshal(sig, ""))
+	entry := func(s cmsSigner) []byte {
+		h := s.hash
+		if h == 0 {
+			h = crypto.SHA256
+		}
+		md := hashOf(h, o.content)
+		attrs := [][]byte{
+			mustMarshal(cmsAttr{asn1.ObjectIdentifier{1, 2, 840, 113549, 1, 9, 3}, set(mustMarshal(ect, ""))}, ""),
+			mustMarshal(cmsAttr{asn1.ObjectIdentifier{1, 2, 840, 113549, 1, 9, 5}, set(mustMarshal(o.signingTime.UTC().Truncate(time.Second), "utc"))}, ""),
+			mustMarshal(cmsAttr{asn1.ObjectIdentifier{1, 2, 840, 113549, 1, 9, 4}, set(mustMarshal(md, ""))}, ""),
+		}
+		if o.smimecap {
+			// S/MIME capabilities: SEQUENCE OF SEQUENCE { OID } (aes256-cbc, aes128-cbc), long enough to sort last
+			caps := mustMarshal([]struct{ O asn1.ObjectIdentifier }{{asn1.ObjectIdentifier{2, 16, 840, 1, 101, 3, 4, 1, 42}}, {asn1.ObjectIdentifier{2, 16, 840, 1, 101, 3, 4, 1, 2}},
+				{asn1.ObjectIdentifier{1, 2, 840, 113549, 3, 7}}, {asn1.ObjectIdentifier{2, 16, 840, 1, 101, 3, 4, 1, 22}}}, "")
+			attrs = append(attrs, mustMarshal(cmsAttr{asn1.ObjectIdentifier{1, 2, 840, 113549, 1, 9, 15}, set(caps)}, ""))
+		}
+		for _, x := range o.extraAttrs {
+			attrs = append(attrs, append([]byte{}, x...))
+		}
+		sort.Slice(attrs, func(i, j int) bool { return bytes.Compare(attrs[i], attrs[j]) < 0 }) // DER SET OF ordering
+		var body []byte
+		for _, a := range attrs {
+			body = append(body, a...)
+		}
+		signed := append(append([]byte{0x31}, derLen(len(body))...), body...)
+		dg := hashOf(h, signed)
+		if o.noAttrs {
+			dg = md
+		}
+		sig, err := rsa.SignPKCS1v15(rand.Reader, s.key, h, dg)
+		if err != nil {
+			return nil
+		}
+		if o.noAttrs {
+			return seq(mustMarshal(1, ""), seq(s.cert.RawIssuer, mustMarshal(s.cert.SerialNumber, "")), alg(cmsHashOIDs[h]), alg(oidRSA), mustMarshal(sig, ""))
+		}
+		return seq(mustMarshal(1, ""), seq(s.cert.RawIssuer, mustMarshal(s.cert.SerialNumber, "")), alg(cmsHashOIDs[h]), tagged(0xa0, body), alg(oidRSA), mustMarshal(sig, ""))
 	}
-	eci := mustMarshal(oidData, "")
-	if attached {
-		eci = append(eci, tagged(0xa0, mustMarshal(content, ""))...)
+	signers := []cmsSigner{{key, cert, o.hash}}
+	if o.coFirst {
+		signers = append(append([]cmsSigner{}, o.coSigners...), signers...)
+	} else {
+		signers = append(signers, o.coSigners...)
 	}
-	parts := [][]byte{mustMarshal(1, ""), tagged(0x31, alg(oidSHA)), seq(eci)}
-	if withCerts {
-		parts = append(parts, tagged(0xa0, cert.Raw))
+	var sis, certs []byte
+	var algs [][]byte
+	for _, s := range signers {
+		e := entry(s)
+		if e == nil {
+			return nil
+		}
+		sis = append(sis, e...)
+		certs = append(certs, s.cert.Raw...)
+		h := s.hash
+		if h == 0 {
+			h = crypto.SHA256
+		}
+		a := alg(cmsHashOIDs[h])
+		dup := false
+		for _, b := range algs {
+			dup = dup || bytes.Equal(a, b)
+		}
+		if !dup {
+			algs = append(algs, a)
+		}
 	}
-	parts = append(parts, tagged(0x31, si))
+	sort.Slice(algs, func(i, j int) bool { return bytes.Compare(algs[i], algs[j]) < 0 })
+	eci := mustMarshal(ect, "")
+	if o.attached {
+		eci = append(eci, tagged(0xa0, mustMarshal(o.content, ""))...)
+	}
+	parts := [][]byte{mustMarshal(1, ""), tagged(0x31, bytes.Join(algs, nil)), seq(eci)}
+	if o.withCerts {
+		parts = append(parts, tagged(0xa0, certs))
+	}
+	parts = append(parts, tagged(0x31, sis))
 	sd := seq(parts...)
 	return seq(mustMarshal(oidSD, ""), tagged(0xa0, sd))
 }
@@ -627,6 +871,8 @@ func c16Gen(c *Ctx) {
 	seeds = append(seeds, cmsShapedSeeds(c)...)
 	seeds = append(seeds, validitySeeds(c)...)
 	seeds = append(seeds, contentKindSeeds(c)...)
+	seeds = append(seeds, cmsVariantSeeds(c)...)
+	seeds = append(seeds, opensslVariantSeeds(c)...)
 	defer func() {
 		for tz, w := range c16Workers {
 			w.Close()
@@ -708,7 +954,7 @@ func c16Gen(c *Ctx) {
 
 func init() {
 	register("C16", &PropDef{
-		Rule:   "OpenSSL smime/cms x {detached, -nodetach} x {-nosmimecap} x {-nocerts} x {-cades} produced at check time when the CLI exists, and smime/cms -noattr (no signed attributes: has to parse, need not verify); harness-built CMS SignedData in OpenSSL's shape (DER-sorted attribute SET, S/MIME capabilities on/off, attached/detached, certificates on/off, signer self-signed or issued by a CA, the signer's certificate itself signed with SHA-256, SHA-384 or SHA-512, a hand-encoded multi-valued-RDN name; signer keys of 2048 bits and - OpenSSL smime / cms -nodetach and harness-built - of 2047 and 2049 bits [thorough: also 3001, 4095], i.e. RSA moduli that are not a whole number of bytes long); signer certificates whose validity period stands in every relation to the signed signingTime (covering it, expired a year / a second before it, valid only from a second / a year after it, ending or starting exactly at it, a single instant equal to it, no validity period at all = both dates the zero time, only NotBefore zero; self-signed and CA-issued) for signatures made now [all relations], in 2011 and in 2049 [quick: a third of the relations each], the default 2023..2033 certificate with a signingTime one second before / exactly at / one second after either end and in 1999, and OpenSSL smime / cms signing now with such expired / not yet valid / period-less certificates - validity periods play no part in the property: the signature must verify against the signer's certificate and be rejected for the twin and the unrelated one; ATTACHED signatures over each kind of content by what its octets look like to a DER reader (text, 1 KiB of random bytes, a single zero byte, a file that is itself exactly one DER SEQUENCE - a small one, a .der certificate, another signature blob -, one OCTET STRING holding a SEQUENCE, one SET, a SEQUENCE followed by one more byte, bytes that only start like a SEQUENCE), harness-built in OpenSSL's shape and made by OpenSSL smime / cms -nodetach (quick: the two tools alternate over the kinds, every third kind also detached; thorough: both, and detached, for every kind); the sbsign / sbvarsign artefacts of the repository. Harness-built blobs without signed attributes (signature over the content octets, attached and detached) have to parse. Each is parsed and verified against the signer's certificate, a twin (same issuer+serial, other key) and an unrelated certificate - on a fresh parsed object and on ONE parsed object that answers for several certificates in turn, in both orders (signer's certificate after the twin: Verify(twin), Verify(signer), Verify(twin), Verify(signer); twin and unrelated certificate after the signer's) -, and its signed attributes are re-encoded and compared with the transmitted bytes located with encoding/asn1; where the blob verifies, the entry's signature is checked with crypto/rsa under the signer's key over the re-encoding itself. The verifying process's local time zone: for every blob with signed attributes the verdict for the signer's certificate and the reconstruction of the signed attributes are also asked of worker processes started with TZ = Asia/Tokyo, America/St_Johns, Europe/Berlin, Etc/GMT+12, Etc/GMT-14 and UTC (quick: two zones per blob, rotating; thorough: all six; the worker reports its offset, a case counts as non-trivial when it is not zero): the blob must verify there, the verdict must be the one given in this process, and the reconstruction must be the transmitted bytes (signingTime is a UTCTime ending in Z, whatever the zone of the process that re-encodes it). Histories of reconstructions: for every window of three seeds (two neighbours and one seven places on) the three signatures are parsed, Attributes.Marshal is called on them in the order 0,1,2,0,2,1 with EVERY result kept, and at the end each kept result must still be the bytes signed in its own signature (thorough: 400 random histories over 2-6 seeds and 2-13 reconstructions as well). Every case is non-trivial; distinct = distinct (blob, certificate).",
+		Rule:   "OpenSSL smime/cms x {detached, -nodetach} x {-nosmimecap} x {-nocerts} x {-cades} produced at check time when the CLI exists, and smime/cms -noattr (no signed attributes: has to parse, need not verify); harness-built CMS SignedData in OpenSSL's shape (DER-sorted attribute SET, S/MIME capabilities on/off, attached/detached, certificates on/off, signer self-signed or issued by a CA, the signer's certificate itself signed with SHA-256, SHA-384 or SHA-512, a hand-encoded multi-valued-RDN name; signer keys of 2048 bits and - OpenSSL smime / cms -nodetach and harness-built - of 2047 and 2049 bits [thorough: also 3001, 4095], i.e. RSA moduli that are not a whole number of bytes long); signer certificates whose validity period stands in every relation to the signed signingTime (covering it, expired a year / a second before it, valid only from a second / a year after it, ending or starting exactly at it, a single instant equal to it, no validity period at all = both dates the zero time, only NotBefore zero; self-signed and CA-issued) for signatures made now [all relations], in 2011 and in 2049 [quick: a third of the relations each], the default 2023..2033 certificate with a signingTime one second before / exactly at / one second after either end and in 1999, and OpenSSL smime / cms signing now with such expired / not yet valid / period-less certificates - validity periods play no part in the property: the signature must verify against the signer's certificate and be rejected for the twin and the unrelated one; ATTACHED signatures over each kind of content by what its octets look like to a DER reader (text, 1 KiB of random bytes, a single zero byte, a file that is itself exactly one DER SEQUENCE - a small one, a .der certificate, another signature blob -, one OCTET STRING holding a SEQUENCE, one SET, a SEQUENCE followed by one more byte, bytes that only start like a SEQUENCE), harness-built in OpenSSL's shape and made by OpenSSL smime / cms -nodetach (quick: the two tools alternate over the kinds, every third kind also detached; thorough: both, and detached, for every kind); the sbsign / sbvarsign artefacts of the repository. Harness-built blobs without signed attributes (signature over the content octets, attached and detached) have to parse. Each is parsed and verified against the signer's certificate, a twin (same issuer+serial, other key) and an unrelated certificate - on a fresh parsed object and on ONE parsed object that answers for several certificates in turn, in both orders (signer's certificate after the twin: Verify(twin), Verify(signer), Verify(twin), Verify(signer); twin and unrelated certificate after the signer's) -, and its signed attributes are re-encoded and compared with the transmitted bytes located with encoding/asn1; where the blob verifies, the entry's signature is checked with crypto/rsa under the signer's key over the re-encoding itself. The verifying process's local time zone: for every blob with signed attributes the verdict for the signer's certificate and the reconstruction of the signed attributes are also asked of worker processes started with TZ = Asia/Tokyo, America/St_Johns, Europe/Berlin, Etc/GMT+12, Etc/GMT-14 and UTC (quick: two zones per blob, rotating; thorough: all six; the worker reports its offset, a case counts as non-trivial when it is not zero): the blob must verify there, the verdict must be the one given in this process, and the reconstruction must be the transmitted bytes (signingTime is a UTCTime ending in Z, whatever the zone of the process that re-encodes it). Histories of reconstructions: for every window of three seeds (two neighbours and one seven places on) the three signatures are parsed, Attributes.Marshal is called on them in the order 0,1,2,0,2,1 with EVERY result kept, and at the end each kept result must still be the bytes signed in its own signature (thorough: 400 random histories over 2-6 seeds and 2-13 reconstructions as well). Producer configurations that move things around (cmsVariantSeeds, opensslVariantSeeds): (a) an encapsulated content type other than data - object identifiers of 3, 10, 12, 13, 14, 15, 24 and 38 DER octets, harness-built (attached / detached alternating; thorough: both) and openssl cms -econtent_type with 10, 13, 14 and 24 octets (quick: two of {-nodetach, detached, -nosmimecap, both} each; thorough: all four): the signed contentType attribute grows with the identifier and changes its place in the DER-sorted SET (as long as signingTime at 13 octets, behind it from 14 on); (b) additional signed attributes by where their encoding sorts: shorter than contentType, between signingTime and messageDigest, exactly as long as messageDigest with a type that sorts in front of / behind it, one attribute with two values, and a short, a medium and a long one together (thorough: each also under a 14-octet content type); (c) SEVERAL signers of one content with a digest algorithm each: the SHA-256 signer in front of or behind a co-signer that uses SHA-512, SHA-1, SHA-384 or SHA-256 for its message digest and its signature (attached: both orders; detached: one order in quick, both in thorough), and three signers SHA-512 + SHA-256 + SHA-1; each must verify against the SHA-256 signer's certificate (whatever the other entries hold), be rejected for its twin and a stranger, has to parse when asked under the co-signer's certificate, and EVERY entry's attributes must re-encode to the transmitted bytes. Every case is non-trivial; distinct = distinct (blob, certificate).",
 		Assume: []string{"which OpenSSL configurations ran is recorded in notes.openssl; nothing depends on the CLI being present"},
 		Eval:   c16Eval, Gen: c16Gen,
 	})
